@@ -107,6 +107,19 @@ def state_streams(ctx: Ctx) -> None:
             else:
                 nm = rng.choice(names)
                 msgs.append(msggen.random_message(getattr(pb, nm), rng, fill=rng.choice([0.3, 0.8, 1.0])))
+        if si % 4 == 3:
+            # an entity reporting the same value again (and again): every message is a message - identical consecutive ones, and identical ones
+            # separated by other traffic, each produce their callback
+            rep: list[Any] = []
+            for m in msgs:
+                rep.append(m)
+                if type(m).__name__ != "CameraImageResponse":
+                    for _ in range(rng.choice([1, 1, 2])):
+                        c = type(m)()
+                        c.CopyFrom(m)
+                        rep.append(c)
+            msgs = rep + [type(m).FromString(m.SerializeToString()) for m in msgs[:3] if type(m).__name__ != "CameraImageResponse"]
+            res.count("workload/state-stream/with-identical-repeats")
         if not ctx.mine(si):
             continue
         groups = []
@@ -285,6 +298,12 @@ def other_subscriptions(ctx: Ctx) -> None:
                 else:
                     m = pb.SensorStateResponse(key=k, state=1.0)   # not subscribed: no callback
                 msgs.append(m)
+                if rep % 3 == 2 and r != 5 and rng.random() < 0.6:
+                    # the same message again (a beacon advertising unchanged data, a repeated log line, an event fired twice): delivered again
+                    dup = type(m).FromString(m.SerializeToString())
+                    msgs.append(dup)
+                    exp.append((exp[-1][0], dup if exp[-1][0] in ("log", "svc", "adv") else exp[-1][1]))
+                    res.count("workload/other-subscriptions/identical-message-repeated")
             send_stream(sim, dconn, msgs, [1] * len(msgs) if rep % 2 else [len(msgs)])
             res.evaluations += 1
             res.count("workload/other-subscriptions")
